@@ -101,6 +101,8 @@ pub fn ser_err(e: &MessageSerializationError) -> String {
         MessageSerializationError::InvalidChunkSize => "Err InvalidChunkSize".into(),
         MessageSerializationError::Amf0SerializationError(a) => format!("Err Amf0:{}", amf_ser_err(a)),
         MessageSerializationError::Io(_) => "Err Io".into(),
+        #[allow(unreachable_patterns)]
+        _ => "Err Other".into(),
     }
 }
 pub fn de_err(e: &MessageDeserializationError) -> String {
@@ -108,6 +110,8 @@ pub fn de_err(e: &MessageDeserializationError) -> String {
         MessageDeserializationError::InvalidMessageFormat => "Err InvalidMessageFormat".into(),
         MessageDeserializationError::Amf0DeserializationError(a) => format!("Err Amf0:{}", amf_de_err(a)),
         MessageDeserializationError::Io(_) => "Err Io".into(),
+        #[allow(unreachable_patterns)]
+        _ => "Err Other".into(),
     }
 }
 
